@@ -11,7 +11,7 @@ PROPERTY = "C09"
 LEVEL = "model_checking"
 ENGINE = "E-SCEN"
 RULE = (
-    "one probe unit over the full product in-baseline x in-feed x percent in {0,thr-1,thr,thr+1,100} x unit-blocklisted x state-blocklisted x "
+    "one probe unit over the full product in-baseline x in-feed (with results / row without results yet) x percent in {0,thr-1,thr,thr+1,100} x unit-blocklisted x state-blocklisted x "
     "own state {AA,BB} x baseline {0,>0} x turnout factor {0.3, =lower, 1.0, =upper, 3.0} x limits {0.5/2.0, 0.8/1.25} x policy {drop,zero} x "
     "threshold {50,100} x weight basis {turnout, two-party}, on a 6-unit background, executed at the real CombinedDataHandler.get_units; pairs of "
     "probes over a reduced alphabet; outlier models on/off with 19..23 reporting units; every (dem,gop,turnout,baseline) in {0,1,7}^k through the real "
@@ -39,6 +39,9 @@ def _probe_specs():
                 for tf in tfs:
                     for pi in range(5) if in_feed else [0]:
                         out.append(dict(in_base=in_base, in_feed=in_feed, ubl=ubl, sbl=sbl, state=state, bzero=bzero, tf=tf, pi=pi))
+                        if in_feed and tf == "1.0" and pi in (0, 4):
+                            # a feed row that has no results yet (NaN)
+                            out.append(dict(in_base=in_base, in_feed=in_feed, ubl=ubl, sbl=sbl, state=state, bzero=bzero, tf=tf, pi=pi, nan=True))
     return out
 
 
@@ -102,6 +105,8 @@ def _mk_probe(spec, slot, thr, lim, basis, seed):
     u = E.make_unit(f"{county}_p{slot}", spec["state"], county, "r", None, b, (rd, rg, rt), PCT[thr][spec["pi"]], 0.5, spec["in_base"], spec["in_feed"], "probe")
     if spec["ubl"]:
         u["status"] = "unit_blocklisted"
+    if spec.get("nan"):
+        u["r_nan"] = True
     return u
 
 
@@ -195,6 +200,8 @@ def evaluate(case):
                     cov["tf_exactly_at_limit"] += 1
                 if s["pi"] == 2:
                     cov["percent_exactly_at_threshold"] += 1
+                if s.get("nan"):
+                    cov["feed_rows_without_results"] += 1
                 if sum([s["ubl"] or (s["sbl"] and s["state"] == "BB"), s["bzero"], s["tf"] in ("0.3", "lower", "upper", "3.0")]) >= 2:
                     cov["precedence_cases"] += 1
     elif kind == "outlier":
@@ -205,9 +212,13 @@ def evaluate(case):
         units = E.background(case["seed"], "G", n, "AA2")
         rng = random.Random(case["seed"] * 31 + n)
         # two wild units so that the outlier model has something to flag
-        for u in units[:2]:
-            u["r_dem"], u["r_gop"] = int(u["b_dem"] * 1.9), int(u["b_gop"] * 0.55)
-            u["r_turnout"] = int(u["b_turnout"] * 1.85)
+        # unit 0 is an outlier for both models (turnout factor 1.9, inside the hard limits, and a reversed margin), unit 1
+        # for the margin model only: a unit flagged twice must still be passed through exactly once
+        for i, u in enumerate(units[:2]):
+            two = int((u["b_dem"] + u["b_gop"]) * (1.9 if i == 0 else 1.0))
+            big, small = int(two * 0.95), two - int(two * 0.95)
+            u["r_dem"], u["r_gop"] = (big, small) if u["b_dem"] < u["b_gop"] else (small, big)
+            u["r_turnout"] = int(u["b_turnout"] * (1.9 if i == 0 else 1.0))
         units += [E.make_probe(case["seed"], 0, "nonrep_partial", "pop0"), E.make_probe(case["seed"], 1, "zero_baseline", "pop1"), E.make_probe(case["seed"], 2, "unit_blocklisted", "pop0")]
         cfg = E.make_cfg(estimands=est)
         rep, nonrep, other, flagged = _get_units(units, cfg, case["turnout_model"], case["margin_model"])
@@ -234,6 +245,8 @@ def evaluate(case):
         reason = {u: r for u, r in reason.items() if cats.get(u, {}).get("kind") == "fit"}
         _compare(units, cfg, rep, nonrep, other, viol, ctx, reason)
         cov["outlier_flagged_units"] += len(reason)
+        both = {uid for uid in reason if sum(1 for _v, ids, _n in flagged if uid in ids) >= 2}
+        cov["units_flagged_by_both_outlier_models"] += len(both)
         cov["outlier_consulted"] += len(flagged)
         outcomes.append((sorted(consulted), sorted(reason)))
         nontrivial = True
@@ -284,4 +297,4 @@ def evaluate(case):
     return {"violations": V, "cov": dict(cov), "outcome": sha(outcomes)[:16], "nontrivial": nontrivial, "transitions": max(1, runs)}
 
 
-REQUIRED_COUNTERS = {"tf_exactly_at_limit": 200, "percent_exactly_at_threshold": 200, "precedence_cases": 200, "zero_denominators": 50, "outlier_consulted": 4}
+REQUIRED_COUNTERS = {"tf_exactly_at_limit": 200, "percent_exactly_at_threshold": 200, "precedence_cases": 200, "zero_denominators": 50, "outlier_consulted": 4, "units_flagged_by_both_outlier_models": 2, "feed_rows_without_results": 100}
